@@ -9,7 +9,7 @@ from ..core import Result, viol
 ID = 'C19'
 RULE = ('cases = generated schedules: a worker function of a generated kind {returns a value, raises one of 13 exception types '
         'with arguments, swallows the first injected interrupt and continues for tau, blocks in native sleep, retries in a '
-        'broad except-Exception loop, nested run_timeout with inner limit above/below the inner duration, nested run_timeout whose inner limit lies 0.3 s '
+        'broad except-Exception loop, nested run_timeout with inner limit above/below the inner duration, nested run_timeout whose inner limit lies 0.5 s '
         'behind the outer one while the inner function runs 0.5 s past that (outer expires first)} whose completion '
         'is set to limit + delta, delta on a dense grid around 0 (+/- 1..60 ms) and far values, each repeated, limits 40-120 '
         'ms plus 400-500 ms limits with completion >= 300 ms early (every exception type: decidedly in time); followed by a '
@@ -40,7 +40,7 @@ def fixed_cases(tier):
     for r in range(3 if tier == 'quick' else 12):
         yield {'kind': 'nested_inner_times_out', 'limit_ms': 400, 'delta_ms': 500, 'exc': 'ValueError', 'tau_ms': 5,
                'rep': r}
-    # nested limiter whose own limit lies 0.3 s behind the outer one while the inner function runs 0.5 s past even that:
+    # nested limiter whose own limit lies 0.5 s behind the outer one while the inner function runs 0.5 s past even that:
     # the outer interrupt is pending long before the inner wait ends, so the inner limiter is interrupted *while waiting*
     # (not while closing its pool: KF24's race cannot occur here) and must stop its own worker before passing it on
     for r in range(3 if tier == 'quick' else 12):
@@ -148,10 +148,10 @@ def make_function(case, state, run_timeout, t0):
         state.thread = threading.current_thread()
 
         def inner():
-            _busy_until(state, t0+limit+0.8, attr='inner_beats')
+            _busy_until(state, t0+limit+1.0, attr='inner_beats')
             return 'inner'
         try:
-            r = run_timeout(limit+0.3, inner)
+            r = run_timeout(limit+0.5, inner)
         except TimeoutError:
             r = 'inner_timeout'
         done('returned')
